@@ -36,7 +36,45 @@ def raii_nodes(text, lw):
         lw.fire('raii_node')
 
 def pre_rules(text, lw):
-    return node_vars(raii_nodes(text, lw), lw)
+    return node_vars(raii_nodes(backoffs(ref_aliases(text, lw), lw), lw), lw)
+
+def ref_aliases(text, lw):
+    """a local reference into a node (`std::atomic<marked_value>& slot = h->entries[i].value;`) is an alias of a shared cell, not a variable of the
+       loop: what is written through it is havocked with the shared cells (havoc_shared / havoc_nodes_seq).  Its name - whatever it is - is added to the
+       source's havoc_exempt list (the engine's check "every identifier written in a cut loop is named in XV_HAVOC_*" reads that list after lowering)."""
+    ex = lw.spec.get('havoc_exempt')
+    if ex is not None:
+        for m in re.finditer(r'[\w>:]\s*&\s*(\w+)\s*=\s*([^;]+);', text):
+            if '->' in m.group(2) and m.group(1) not in ex: ex.append(m.group(1)); lw.fire('ref_alias')
+    return text
+
+def backoffs(text, lw):
+    """unit-local rule: a local backoff object (`backoff NAME;` / `ramalhete_queue::backoff NAME;`) is dropped, its call `NAME();` becomes XV_BACKOFF();
+       (whatever the object is called, wherever it is declared - also inside a helper that was split off)"""
+    for n in set(re.findall(r'\b(?:ramalhete_queue::)?backoff\s+(\w+)\s*;', text)):
+        text, k = re.subn(r'\b(?:ramalhete_queue::)?backoff\s+%s\s*;' % n, '', text); lw.fire('subst:drop_backoff_decl', k)
+        text, k = re.subn(r'(?<![\w.>])%s\s*\(\s*\)\s*;' % n, 'XV_BACKOFF();', text); lw.fire('subst:backoff_call', k)
+    return text
+
+def post_rules(text, lw):
+    """unit-local rule: nodes are kept as one small array per member.  NODE->entries[EXPR] -> N_ent(NODE, EXPR) (a `struct entry` lvalue; the index
+       expression EXPR - whatever it looks like - reaches the harness through the macro, which is how the ticket -> entry map is observed);
+       NODE->member -> N_member(NODE).  NODE is GDEREF(x) in the queue's functions and self in the node's own members."""
+    pat = re.compile(r'(?:GDEREF\((\w+)\)|\bself)->entries\s*\[')
+    out = ''; pos = 0
+    while True:
+        m = pat.search(text, pos)
+        if not m: break
+        i = m.end() - 1; j = _L.match_brace(text, i, '[', ']')
+        out += text[pos:m.start()] + 'N_ent(%s, %s)' % (m.group(1) or 'self', text[i + 1:j]); pos = j + 1
+        lw.fire('node_entry')
+    text = out + text[pos:]
+    text, k = re.subn(r'GDEREF\((\w+)\)->(\w+)', r'N_\2(\1)', text)
+    if k: lw.fire('node_member', k)
+    if lw.spec.get('_node_self'):
+        text, k = re.subn(r'\bself->(\w+)', r'N_\1(self)', text)
+        if k: lw.fire('node_member', k)
+    return text
 
 def node_vars(text, lw):
     """unit-local rule: every local that holds a node (guard_ptr x; node* x = ...; auto x = new node / _head.load) is dereferenced with GDEREF"""
@@ -46,16 +84,16 @@ def node_vars(text, lw):
     lw.spec = dict(lw.spec, deref={n: 'GDEREF' for n in names})
     return text
 
+# class constants: an index expression inside an atomic write (entries[idx % entries_per_node].value.exchange(..)) names them; they are not written
+CONSTANT_NAMES = sorted(set(['entries_per_node', 'pop_retries', 'step_size', 'max_idx'] + re.findall(r'static constexpr unsigned (\w+) =', _L.strip_comments(_L.read_source(
+    os.path.join(os.environ.get('XV_REPO', '/repo'), F))) if os.path.exists(os.path.join(os.environ.get('XV_REPO', '/repo'), F)) else '')))
 # rules shared by the queue member functions (push / pop / ctor / dtor)
 COMMON = dict(
     members=['_head', '_tail'],
     methods={'acquire': 'G_acquire', 'reclaim': 'G_reclaim', 'get': 'MV_get',
              'has_value': 'OPT_has', 'value': 'OPT_value'},
     calls={'marked_value': 'MV_make'},
-    pre_subst=[(r'\bbackoff backoff;', '', 'drop_backoff_decl'),
-               (r'\bramalhete_queue::backoff retry_backoff;', '', 'drop_backoff_decl'),
-               (r'\b(retry_)?backoff\(\);', 'XV_BACKOFF();', 'backoff_call'),
-               (r'\bguard_ptr (\w+);', r'guard_ptr \1 = 0;', 'guard_default_ctor'),
+    pre_subst=[(r'\bguard_ptr (\w+);', r'guard_ptr \1 = 0;', 'guard_default_ctor'),
                (r'\bnode\* (\w+) = new node\((\w+)\);', r'marked_ptr \1 = XV_NEW_NODE(\2);', 'new_node'),
                (r'\bauto (\w+) = new node\(nullptr\);', r'marked_ptr \1 = XV_NEW_NODE(0);', 'new_node'),
                (r'\bdelete (\w+);', r'XV_DELETE_NODE(\1);', 'delete_node'),
@@ -63,29 +101,31 @@ COMMON = dict(
     subst=[(r'\btraits::', 'TR_', 'traits'), (r'\bstd::ignore\s*=', '(void)', 'ignore'), (r'\bstd::nullopt\b', 'XV_NULLOPT', 'nullopt'),
            (r'\bmarked_(ptr|value)\b(?!\()', r'marked_\1_t', 'type_name')],
     py_pre=pre_rules,
-    # nodes are kept as one small array per member (cheap for cbmc): node->member becomes N_member(node)
-    post_subst=[(r'GDEREF\((\w+)\)->entries\[([^\]]+)\]\.value', r'N_entry(\1, \2)', 'node_entry'),
-                (r'GDEREF\((\w+)\)->(\w+)', r'N_\2(\1)', 'node_member')],
+    # nodes are kept as one small array per member (cheap for cbmc): node->member becomes N_member(node), node->entries[i] N_ent(node, i)
+    py_post=post_rules,
 )
-PUSH = dict(COMMON, file=F, sig=r'void ' + Q + r'push\(value_type value\)', may_throw=['XV_NEW_NODE'],
+PUSH = dict(COMMON, file=F, sig=r'void ' + Q + r'push\(value_type value\)', may_throw=['XV_NEW_NODE'], havoc_exempt=list(CONSTANT_NAMES),
             # (no count for the roll-back statements - push_idx store, delete - : a variant that frees the node through an RAII object has none)
             must_fire={'A_LOAD': 3, 'A_FADD': 1, 'A_CAS': 4, 'method:acquire': 1, 'subst:new_node': 1,
                        'subst:traits': 3, 'throw': 1, 'subst:backoff_call': 1})
-POP = dict(COMMON, file=F, sig=r'auto ' + Q + r'pop\(\) -> std::optional<value_type>', dflt='XV_NULLOPT',
+POP = dict(COMMON, file=F, sig=r'auto ' + Q + r'pop\(\) -> std::optional<value_type>', dflt='XV_NULLOPT', havoc_exempt=list(CONSTANT_NAMES),
            must_fire={'A_LOAD': 7, 'A_FADD': 1, 'A_CAS': 1, 'A_XCHG': 1, 'method:acquire': 1, 'method:reclaim': 1, 'subst:traits': 2,
                       'subst:nullopt': 1, 'call:marked_value': 1})
 NODE = dict(file=F, members=['pop_idx', 'push_idx', 'entries', 'next'], methods={'get': 'MV_get'},
             subst=[(r'\btraits::', 'TR_', 'traits'), (r'\bstd::min\b', 'XV_MIN', 'min')],
-            post_subst=[(r'self->entries\[([^\]]+)\]\.value', r'N_entry(self, \1)', 'node_entry'),
-                        (r'self->(\w+)', r'N_\1(self)', 'node_member')])
+            _node_self=True, py_post=post_rules)
 
 E_QUICK = list(range(1, 17)) + [22, 33, 64, 128, 512, 1024, 2048]
 def idx_runs():
     rs = []
     for e in range(1, 2049):
         tiers = ['quick', 'thorough'] if e in E_QUICK else ['thorough']
-        rs.append(dict(id='idx%d' % e, entry='h_idx', tiers=tiers, cls='unbounded', defs={'XV_E': e}, solver=['--sat-solver', 'cadical'],
-                       note='pure arithmetic for entries_per_node = %d, both tickets symbolic' % e))
+        rs.append(dict(id='idx%d' % e, entry='h_idx', tiers=tiers, cls='unbounded', defs={'XV_E': e, 'XV_IDX': 1}, solver=['--sat-solver', 'cadical'],
+                       # every loop of the real functions runs at most once here, however the loops are written: 2 is the bound for all of them; the
+                       # retry loops of push / pop do not even reach their back edge (bound 1 where the loop numbers are the usual ones: cheaper)
+                       unwind=2, unwindset=['idx_state.0:5'] + ['ram_%s.%d:1' % (f, i) for f in ('push', 'pop') for i in range(3)],
+                       note='entries_per_node = %d, both tickets symbolic: the entry index the real push / pop / ~node use for a ticket, observed on the '
+                            'lowered functions (fetch_add monitor, entries[] index macro); every loop runs at most once (the entry of the ticket is free / holds a value)' % e))
     return rs
 def shape_runs(rid, entry, shapes, quick, **kw):
     rs = []
@@ -167,7 +207,9 @@ UNIT = dict(
   drops='templates: value_type / raw_type / marked_value / marked_ptr / guard_ptr are opaque 16-bit words (the code only copies and compares them: data independence); '
         'marked_value keeps its mark in the top bit of the word (bit 63 of the real marked_ptr<T,1>, contract of unit mp); '
         'guard_ptr: acquire = protected snapshot, reclaim = ghost retire counter; backoff objects and calls dropped; '
-        'nodes are kept as one small array per member (node->member is rewritten mechanically to N_member(node)); '
+        'nodes are kept as one small array per member (node->member is rewritten mechanically to N_member(node), node->entries[i] to N_ent(node, i)); '
+        'idx runs: the entries of the one node are kept lazily (the entry named by the first entries[] access after the ticket was drawn, content arbitrary '
+        'but free for push / a value for pop and ~node, so that the call ends in the iteration that drew the ticket), new node = std::bad_alloc; '
         'new/delete of nodes = allocation from a pool of 4 that runs the lowered real node constructor / destructor; '
         'pointer_queue_traits calls are contract stubs (proved per variant in unit pqt); entries_per_node and pop_retries are compile-time shapes; '
         'in the SEQ runs the retry loops of push/pop are cut by invariants (PUSHSEQ/POPSEQ), cross-checked by completely unwound runs for entries_per_node 1, 2',
@@ -184,13 +226,6 @@ UNIT = dict(
     # static_asserts that directly follow the two constants (none on the original tree)
     dict(name='XV_STATIC_ASSERTS', file=F, regex=r'static constexpr unsigned max_idx = [^;]+;\s*(?:static constexpr [^;]+;\s*)*((?:static_assert\s*\((?:[^;"]|"[^"]*")*\)\s*;\s*)*)',
          subst=[(r'static_assert\s*\(((?:[^;",]|"[^"]*")*),\s*(?:"[^"]*"\s*)+\)\s*;\s*', r'(\1) && '), (r'^(.*)$', r'\1 1')]),
-    # the statement that maps the drawn counter value to an entry index in push / pop, the expression in ~node, and the variables they use
-    dict(name='XV_PUSH_SLOT_STMT', file=F, regex=r'\n\s*(\w+ [-+*/%&|^]?=[^;=]*);\s*marked_value \w+ = nullptr;'),
-    dict(name='XV_PUSH_SLOT_VAR', file=F, regex=r'\n\s*(\w+) [-+*/%&|^]?=[^;=]*;\s*marked_value \w+ = nullptr;'),
-    dict(name='XV_POP_SLOT_STMT', file=F, regex=r'\n\s*(\w+ [-+*/%&|^]?=[^;=]*);\s*auto \w+ = \w+->entries\[\w+\]'),
-    dict(name='XV_POP_SLOT_VAR', file=F, regex=r'\n\s*(\w+) [-+*/%&|^]?=[^;=]*;\s*auto \w+ = \w+->entries\[\w+\]'),
-    dict(name='XV_DTOR_SLOT_EXPR', file=F, regex=r'traits::delete_value\(entries\[([^\]]+)\]'),
-    dict(name='XV_DTOR_SLOT_VAR', file=F, regex=r'~node\(\) override \{.*?for \(unsigned (\w+) = '),
   ] + extra_constants(),
   sources=[
     dict(NODE, id='node_ctor', sig=r'explicit node\(raw_value_type item\)', ctor=True,
